@@ -15,7 +15,14 @@ Proved for every image and every variant:
                                   the db that ends with -1, and its sizes add up to swap_file_sz -- or to less, which
                                   only the variant without the size check in finalizeOrThrow permits;
 * `readable_chains_disjoint`      no slot is in the chains of two readable entries;
-* `readable_size_exact`           with the size check (`finalizeChecksKnownSize`) the sum always equals swap_file_sz.
+* `readable_size_exact`           with the size check (`finalizeChecksKnownSize`) the sum always equals swap_file_sz;
+* `readable_chain_matches_disk`   every slice of a readable chain carries the payload size and link of the db cell at
+                                  that position (a usable, sane, non-empty cell);
+* `readable_chain_own_slots_partial`  EXCLUDED REGION as hypothesis `Own`: when finalizeOrThrow checks slot owners
+                                  (`finalizeChecksOwner`) or no nextSlot of the image leaves its entry position
+                                  (`LinksClosed`), every slot of a readable chain is a cell of that very entry, was not
+                                  freed and is not on the free-slot stack; `readable_chain_own_slots_fixed` is the
+                                  unconditional form for the owner-checking variant.
 The full statement is false of the pinned source; the counterexample theorems below exhibit the witnesses
 (all replayed on the real code, see corpus/C57):
 * `short_entry_counterexample`    sizes add up to 1, swap_file_sz is 2 (readable_size_exact fails without the check);
@@ -59,6 +66,26 @@ theorem readable_chains_disjoint (cfg : Cfg) (img : List RawSlot) (st : St) (h :
     (f g : Nat) (hf : Readable st f) (hg : Readable st g) (hfg : f ≠ g) (Cf Cg : List Int)
     (hcf : Chain st.next (st.an f).start Cf) (hcg : Chain st.next (st.an g).start Cg) : ∀ x ∈ Cf, x ∉ Cg :=
   Inv.disjoint (n := img.length) ((rebuild_sat cfg img).of_ok h) hf hg hfg hcf hcg
+
+/-- every slice of a readable chain is what the db cell at that position says -/
+theorem readable_chain_matches_disk (cfg : Cfg) (img : List RawSlot) (st : St) (h : rebuild cfg img = .ok st)
+    (f : Nat) (hr : Readable st f) (C : List Int) (hc : Chain st.next (st.an f).start C) :
+    ∀ x ∈ C, ∃ hd, usableAt cfg img x = some hd ∧ (st.sl x).size = hd.payloadSize ∧ (st.sl x).next = hd.nextSlot :=
+  Inv.matches_disk (n := img.length) ((rebuild_sat cfg img).of_ok h) hr hc
+
+/-- full statement (false of the pinned source, see `stolen_slot_counterexample`): "no slot of a readable chain belongs
+    to another entry or is on the free-slot stack".  Proved under `Own cfg img`: finalizeOrThrow checks slot owners, or
+    no nextSlot link of the image leaves the entry position of the cell that carries it. -/
+theorem readable_chain_own_slots_partial (cfg : Cfg) (img : List RawSlot) (ho : Own cfg img) (st : St)
+    (h : rebuild cfg img = .ok st) (f : Nat) (hr : Readable st f) (C : List Int) (hc : Chain st.next (st.an f).start C) :
+    ∀ x ∈ C, x ∉ st.free ∧ (st.ls x).freed = false ∧ ∃ hd, usableAt cfg img x = some hd ∧ fileOf cfg img hd = f :=
+  Inv.own_slots (n := img.length) ((rebuild_sat cfg img).of_ok h) ho hr hc
+
+/-- the owner-checking variant satisfies it for every image -/
+theorem readable_chain_own_slots_fixed (cfg : Cfg) (hv : cfg.v.finalizeChecksOwner = true) (img : List RawSlot) (st : St)
+    (h : rebuild cfg img = .ok st) (f : Nat) (hr : Readable st f) (C : List Int) (hc : Chain st.next (st.an f).start C) :
+    ∀ x ∈ C, x ∉ st.free ∧ (st.ls x).freed = false ∧ ∃ hd, usableAt cfg img x = some hd ∧ fileOf cfg img hd = f :=
+  readable_chain_own_slots_partial cfg img (Or.inl hv) st h f hr C hc
 
 /-! ### witnesses -/
 
@@ -104,6 +131,11 @@ example : ∃ st, rebuild (legacyCfg true) goodImage = .ok st ∧
 example : ∃ st, rebuild (fixedCfg true) goodImage = .ok st ∧
     (decide (Readable st 1) && decide (Readable st 2) && (st.an 1).sfs == 3 && st.free == [4]) = true :=
   okAnd_spec (by decide)
+
+/-- non-vacuity of the hypothesis of `readable_chain_own_slots_partial`: the well-formed image has closed links, the
+    stealing image has not (and the pinned source does not check owners) -/
+example : Own (legacyCfg true) goodImage := Or.inr (linksClosed_of_check (by decide))
+example : linksClosedCheck (legacyCfg false) stealImage = false := by decide
 
 /-- pinned source: the lone inode becomes readable with swap_file_sz = 2 although its only slice holds 1 byte -/
 theorem short_entry_counterexample : ∃ st, rebuild (legacyCfg false) shortImage = .ok st ∧
